@@ -43,6 +43,10 @@ def make_scan(case):
     from abtem import CustomScan, GridScan, LineScan
 
     s = case["scan"]
+    if s["kind"] == "none":       # the default of SMatrix.reduce: one probe at the centre of the cell, positions axis removed
+        return None
+    if s["kind"] == "position":   # a bare (x, y): one probe, positions axis removed
+        return tuple(s["position"])
     if s["kind"] == "custom":
         return CustomScan(np.array(s["positions"], dtype=float))
     if s["kind"] == "grid":
@@ -69,11 +73,17 @@ def make_detector(case):
     return PixelatedDetector(max_angle=None)
 
 
+def energy(case):
+    return case.get("energy", ENERGY)
+
+
 def smatrix(case, pot):
     from abtem import SMatrix
 
     kw = dict(potential=pot) if pot is not None else dict(extent=tuple(case["cell"][:2]), gpts=tuple(case["gpts"]))
-    return SMatrix(energy=ENERGY, semiangle_cutoff=case["cutoff"], interpolation=tuple(case["interpolation"]),
+    if case.get("store_on_host"):
+        kw["store_on_host"] = True
+    return SMatrix(energy=energy(case), semiangle_cutoff=case["cutoff"], interpolation=tuple(case["interpolation"]),
                    downsample=False, **kw)
 
 
@@ -145,7 +155,14 @@ def gen_interp1(ctx: Ctx):
     c.update(oracle="interp1", interpolation=[1, 1], potential=rng.choice(["none", "atoms", "atoms", "fp"]),
              lazy=rng.random() < 0.5, detector=rng.choice(["waves", "waves", "annular", "pixelated", "flexible", "segmented", "multi"]))
     c["nconf"] = rng.randint(2, 3)
+    c["energy"] = rng.choice([100e3, 100e3, 60e3, 200e3, 300e3])
+    c["store_on_host"] = rng.random() < 0.2
     c["scan"] = gen_scan(ctx, c, outside=rng.random() < 0.2)
+    k = rng.random()
+    if k < 0.12:
+        c["scan"] = dict(kind="none")
+    elif k < 0.24:
+        c["scan"] = dict(kind="position", position=[dyadic(rng, 0, c["cell"][0] - 0.125, 3), dyadic(rng, 0, c["cell"][1] - 0.125, 3)])
     if c["detector"] != "multi" and rng.random() < 0.25:
         c["ctf_series"] = {"C10": [dyadic(rng, -40, 40, 1) for _ in range(rng.randint(2, 3))]}
     return c
@@ -154,6 +171,9 @@ def gen_interp1(ctx: Ctx):
 def gen_window(ctx: Ctx):
     rng = ctx.rng
     c = gen_common(ctx)
+    if rng.random() < 0.3:  # grids that the interpolation does not divide (window = ceil(n / f) pixels, not one period), odd grids
+        c["gpts"] = [rng.choice([13, 14, 15, 18]), rng.choice([13, 14, 17, 18])]
+    c["energy"] = rng.choice([100e3, 100e3, 80e3, 200e3])
     c.update(oracle="window", interpolation=rng.choice([[2, 2], [2, 1], [1, 2], [4, 2], [2, 4]]),
              potential=rng.choice(["none", "atoms"]), lazy=rng.random() < 0.4, detector="waves")
     out = rng.random() < 0.5
@@ -174,8 +194,10 @@ def reference_interp1(case):
 
     _, singles = potentials(case)
     scan = make_scan(case)
+    if case["scan"]["kind"] == "none":  # Probe's own default position differs (origin): give the S-matrix default explicitly
+        scan = (case["cell"][0] / 2, case["cell"][1] / 2)
     det = make_detector(case)
-    probe = Probe(energy=ENERGY, semiangle_cutoff=case["cutoff"], gpts=tuple(case["gpts"]), extent=tuple(case["cell"][:2]),
+    probe = Probe(energy=energy(case), semiangle_cutoff=case["cutoff"], gpts=tuple(case["gpts"]), extent=tuple(case["cell"][:2]),
                   **case["aberrations"])
     series = case.get("ctf_series") or {}
     nser = len(next(iter(series.values()))) if series else 1
@@ -183,7 +205,7 @@ def reference_interp1(case):
     for j in range(nser):  # one scalar CTF per member of the series: member j of the ensemble == scalar run j
         abj = dict(case["aberrations"])
         abj.update({k: v[j] for k, v in series.items()})
-        probe = Probe(energy=ENERGY, semiangle_cutoff=case["cutoff"], gpts=tuple(case["gpts"]), extent=tuple(case["cell"][:2]), **abj)
+        probe = Probe(energy=energy(case), semiangle_cutoff=case["cutoff"], gpts=tuple(case["gpts"]), extent=tuple(case["cell"][:2]), **abj)
         outs = []
         for p in singles:
             if p is None:
@@ -218,7 +240,7 @@ def oracle_interp1(ctx: Ctx, case):
     pot, _ = potentials(case)
     ab = dict(case["aberrations"])
     ab.update({k: np.array(v, dtype=float) for k, v in (case.get("ctf_series") or {}).items()})
-    ctf = CTF(semiangle_cutoff=case["cutoff"], energy=ENERGY, **ab)
+    ctf = CTF(semiangle_cutoff=case["cutoff"], energy=energy(case), **ab)
     got = arr(smatrix(case, pot).reduce(scan=make_scan(case), ctf=ctf, detectors=make_detector(case), lazy=case["lazy"]),
               case["lazy"])
     exp = reference_interp1(case)
@@ -270,7 +292,7 @@ def oracle_window(ctx: Ctx, case):
     series = case.get("ctf_series") or {}
     ab = dict(case["aberrations"])
     ab.update({k: np.array(v, dtype=float) for k, v in series.items()})
-    ctf = CTF(semiangle_cutoff=case["cutoff"], energy=ENERGY, **ab)
+    ctf = CTF(semiangle_cutoff=case["cutoff"], energy=energy(case), **ab)
     scan = make_scan(case)
     sm = smatrix(case, pot)
     sa = sm.build(lazy=False)
@@ -296,7 +318,7 @@ def oracle_window(ctx: Ctx, case):
             for j in range(nser):
                 abj = dict(case["aberrations"])
                 abj.update({k: v[j] for k, v in series.items()})
-                ctfj = CTF(semiangle_cutoff=case["cutoff"], energy=ENERGY, **abj)
+                ctfj = CTF(semiangle_cutoff=case["cutoff"], energy=energy(case), **abj)
                 ctfj.grid.match(sa1.dummy_probes())
                 members.append(expected_windows(case, sa1, ctfj, scan)[0])
         lead = ((len(singles),) if case["potential"] == "fp" else ()) + ((nser,) if series else ())
@@ -323,11 +345,14 @@ def oracle_window(ctx: Ctx, case):
             ctx.violation(f"window-crop-batch-dependent:{where}-cell", case,
                           {"what": "reducing one position per batch differs from the expected windows", "rel_linf": d1})
             return d1
-    # vacuum: the window is the probe of the window-sized cell (same reciprocal lattice points), at the shifted position
-    if case["potential"] == "none":
+    # vacuum: the window is the probe of the window-sized cell (same reciprocal lattice points), at the shifted position —
+    # only when the interpolation divides the grid: otherwise the window of ceil(n / f) pixels is not one period of the
+    # superposition and no cell of whole pixels has the same reciprocal lattice
+    divisible = all(n % f == 0 for n, f in zip(sa.gpts, case["interpolation"]))
+    if case["potential"] == "none" and divisible:
         wext = sa.window_extent
         flat = np.asarray(scan.get_positions(), dtype=np.float64).reshape(-1, 2)
-        probe = Probe(energy=ENERGY, semiangle_cutoff=case["cutoff"], gpts=tuple(sa.window_gpts), extent=tuple(wext),
+        probe = Probe(energy=energy(case), semiangle_cutoff=case["cutoff"], gpts=tuple(sa.window_gpts), extent=tuple(wext),
                       **case["aberrations"])
         from abtem import CustomScan
 
@@ -341,7 +366,42 @@ def oracle_window(ctx: Ctx, case):
     return d
 
 
-ORACLES = {"interp1": oracle_interp1, "window": oracle_window}
+def oracle_exit_planes(ctx: Ctx, case):
+    """S-matrix over a potential with several exit planes (thickness series).  On the current tree every mode raises (known
+    findings); the key is only emitted after checking independently that (a) the same S-matrix without exit planes reduces
+    fine and (b) the exception is the recorded one.  If the call succeeds it is compared with Probe.multislice."""
+    from abtem import CTF, Potential, Probe
+
+    atoms = make_atoms(case)
+    kw = dict(gpts=tuple(case["gpts"]), slice_thickness=case["cell"][2] / case["nslices"], projection="infinite")
+    ctf = CTF(semiangle_cutoff=case["cutoff"], energy=energy(case), **case["aberrations"])
+    scan = make_scan(case)
+    mode = "lazy" if case["lazy"] else "eager"
+    plain = arr(smatrix(case, Potential(atoms, **kw)).reduce(scan=scan, ctf=ctf, lazy=case["lazy"]), case["lazy"])
+    pot = Potential(atoms, exit_planes=case["exit_planes"], **kw)
+    probe = Probe(energy=energy(case), semiangle_cutoff=case["cutoff"], gpts=tuple(case["gpts"]), extent=tuple(case["cell"][:2]),
+                  **case["aberrations"])
+    exp = np.asarray(probe.multislice(potential=pot, scan=scan, lazy=False).array)
+    try:
+        got = arr(smatrix(case, pot).reduce(scan=scan, ctf=ctf, lazy=case["lazy"]), case["lazy"])
+    except Exception as e:  # noqa
+        msg = f"{type(e).__name__}: {e}"
+        recorded = (mode == "eager" and isinstance(e, ValueError) and "could not broadcast input array" in str(e)) or \
+                   (mode == "lazy" and isinstance(e, RuntimeError) and "number of array dimensions" in str(e))
+        ok_plain = np.isfinite(plain).all() and rel(plain, exp[-1]) <= TOL
+        key = f"s-matrix-over-exit-planes-raises:{mode}" if (recorded and ok_plain and exp.shape[0] > 1) else \
+            f"s-matrix-over-exit-planes-raises:{mode}:unrecorded:{type(e).__name__}"
+        ctx.violation(key, case, {"what": "SMatrix.reduce over a potential with several exit planes raised", "error": msg[:300],
+                                  "planes": int(exp.shape[0])})
+        return float("inf")
+    d = rel(got, exp)
+    if not d <= TOL:
+        ctx.violation(f"exit-planes-reduce-ne-probe:{mode}", case, {"what": "S-matrix thickness series differs from Probe.multislice", "rel_linf": d,
+                                                                   "shapes": [list(got.shape), list(exp.shape)]})
+    return d
+
+
+ORACLES = {"interp1": oracle_interp1, "window": oracle_window, "exit_planes": oracle_exit_planes}
 
 
 class C06(Property):
@@ -360,7 +420,7 @@ class C06(Property):
         "IEEE float32 evaluation (oracle tolerance 2e-5 of the array maximum); window corners within 1e-3 px of a rounding tie are not compared numerically "
         "(they are compared exactly in unit correspondence: mincrop 'tie' bucket)",
     ]
-    assumptions = ["downsample=False (S-matrix downsampling not modelled, not exercised)", "no exit planes on the S-matrix potential", "orthogonal cells",
+    assumptions = ["downsample=False (S-matrix downsampling not modelled, not exercised)", "orthogonal cells",
                    "GPU paths and the commented-out rechunk reduction schemes are not exercised"]
 
     def correspondence(self, ctx: Ctx):
@@ -490,6 +550,7 @@ class C06(Property):
             sa = sm.build(lazy=False)
             K = len(sa.wave_vectors)
             if tuple(sa.gpts) != (n0, n1) or tuple(sa.window_gpts) != (n0 // f0, n1 // f1) or K < 2:
+                ctx.count("reduce_to_waves(K planes):skipped-grid-adjusted-or-one-plane")
                 continue
             w = tuple(sa.window_gpts)
             Kuse = min(K, rng.randint(2, 4))
@@ -635,6 +696,19 @@ class C06(Property):
                     c["scan"] = dict(kind="custom", positions=[[dyadic(ctx.rng, 0, a - 0.125, 3), dyadic(ctx.rng, 0, b - 0.125, 3)]
                                                                for _ in range(2)])
                     c["detector"] = "annular"
+            if len(combos) <= i < len(combos) + 4:  # scan=None / bare position, eager and lazy, waves and a base-axis-free detector
+                j = i - len(combos)
+                c.pop("ctf_series", None)
+                c["scan"] = dict(kind="none") if j % 2 == 0 else dict(kind="position", position=[1.0, 2.0])
+                c["lazy"] = j >= 2
+                c["detector"] = ["waves", "annular", "annular", "waves"][j]
+                c["store_on_host"] = (j == 0)
+            self.run_oracle(ctx, c)
+        for i in range(ctx.n(2, 12)):  # thickness series through the S-matrix, eager and lazy
+            c = gen_interp1(ctx)
+            c.pop("ctf_series", None)
+            c.update(oracle="exit_planes", potential="atoms", detector="waves", lazy=(i % 2 == 1), nslices=4, exit_planes=2, store_on_host=False,
+                     scan=dict(kind="custom", positions=[[0.5, 0.75], [1.25, 2.0]]))
             self.run_oracle(ctx, c)
         for i in range(ctx.n(20, 200)):
             c = gen_window(ctx)
